@@ -19,11 +19,11 @@ import (
 func init() {
 	Registry["C04"] = RunC04
 	Metas["C04"] = Meta{
-		Rule:           "episode = 1..5 requests (GET/HEAD/POST, HTTP/1.0+1.1, keep-alive/close, pipelined or ping-pong) each answered by a generated handler program: status from {100,101,200,201,204,206,301,304,400,404,500,599} x headers via Set/Add/SetContentType/SetCookie x body via SetBody / SetBodyString+AppendBody / Write+WriteString / SetBodyStream(exact n | -1 | LimitedReader; piecewise, zero-length-then-data, EOF-with-data readers) / hijacked chunked writer with arbitrary write+flush patterns and trailers / no body; sizes around 4096 and MaxSmallFileSize; ImmediateHeaderFlush; write backpressure. Oracles: strict reader decodes every response to the program's status/headers/body, framing exact, bodiless statuses carry no body, next response starts where the previous ends, net/http.ReadResponse agrees, Connection header rule. Non-trivial: >= 2 responses or a stream/chunked-writer body; distinct = abstract signature (status, body mode, size bucket, method, proto). Later still: statuses 205/203, handlers that delete Transfer-Encoding after installing an unknown-length stream or use the identity length, handlers that reuse their buffer after SetBody.",
+		Rule:           "episode = 1..5 requests (GET/HEAD/POST, HTTP/1.0+1.1, keep-alive/close, pipelined or ping-pong) each answered by a generated handler program: status from {100,101,200,201,204,206,301,304,400,404,500,599} x headers via Set/Add/SetContentType/SetCookie x body via SetBody / SetBodyString+AppendBody / Write+WriteString / SetBodyStream(exact n | -1 | LimitedReader; piecewise, zero-length-then-data, EOF-with-data readers) / hijacked chunked writer with arbitrary write+flush patterns and trailers / no body; sizes around 4096 and MaxSmallFileSize; ImmediateHeaderFlush; write backpressure. Oracles: strict reader decodes every response to the program's status/headers/body, framing exact, bodiless statuses carry no body, next response starts where the previous ends, net/http.ReadResponse agrees, Connection header rule. Non-trivial: >= 2 responses or a stream/chunked-writer body; distinct = abstract signature (status, body mode, size bucket, method, proto). Later still: statuses 205/203, handlers that delete Transfer-Encoding after installing an unknown-length stream or use the identity length, handlers that reuse their buffer after SetBody, handlers that install a body stream and then replace it through SetBody / SetBodyString+AppendBody / Write.",
 		Real:           []string{"resp.Write/writeBodyStream", "resp.chunkedBodyWriter", "ext.WriteBodyChunked/WriteBodyFixedSize/WriteChunk/WriteTrailer", "ResponseHeader.AppendBytes", "http1.Server.Serve (Connection decision)", "standard.Conn writer"},
 		Stub:           []string{"TCP (SimConn)", "peer (scripted actor)", "transporter accept loop (stub)", "clock (synctest)"},
 		Assumptions:    []string{"header values are token-safe (hostile bytes are C05's subject, not applicable here)", "documented exclusion honoured: the hijacked chunked writer is not installed on bodiless responses", "a handler-chosen 1xx status is treated as the final response of its request", "with the hijacked chunked writer the header block leaves before the server decides about Connection: the Connection-header oracle is not applied to those responses"},
-		RequiredProbes: []string{"mode-none", "mode-setbody", "mode-append", "mode-write", "mode-stream-n", "mode-stream-unknown", "mode-stream-limited", "mode-chunked-writer", "mode-abort-with-msg", "mode-reset-then-body", "flush-before-write", "bodiless-status", "head", "http10", "second-after-chunked", "backpressure", "trailers", "return-to-transport"},
+		RequiredProbes: []string{"mode-none", "mode-setbody", "mode-append", "mode-write", "mode-stream-n", "mode-stream-unknown", "mode-stream-limited", "mode-chunked-writer", "mode-abort-with-msg", "mode-reset-then-body", "flush-before-write", "bodiless-status", "head", "http10", "second-after-chunked", "backpressure", "trailers", "return-to-transport", "stream-then-bytes"},
 	}
 }
 
@@ -176,7 +176,13 @@ func genProg(tp *core.Tape, idx int, ep *core.Episode, method string) *respProg 
 	if tp.Chance("usize", 1, 4) {
 		size = tp.Choose("usizev", 9000)
 	}
-	p.mode = tp.Choose("mode", 10)
+	p.mode = tp.Choose("mode", 13)
+	staleStream := false
+	if p.mode >= 10 {
+		// 10..12: modes 1..3 by a handler that had installed a body stream first and then changed its mind
+		p.mode -= 9
+		staleStream = true
+	}
 	if p.mode == 7 && bodiless {
 		p.mode = tp.Choose("mode2", 7) // documented exclusion
 	}
@@ -205,6 +211,16 @@ func genProg(tp *core.Tape, idx int, ep *core.Episode, method string) *respProg 
 		}
 		return r
 	}
+	if staleStream && size > 0 {
+		// (with an empty replacement body the Content-Length of the replaced stream stays in the header, which only
+		// shows on HEAD and bodiless statuses, where it frames nothing: not judged, DESIGN.md section 9)
+		ep.Probe("stream-then-bytes")
+		n := -1
+		if idx%2 == 0 {
+			n = len("stale-stream-body")
+		}
+		p.ops = append(p.ops, func(ctx *app.RequestContext) { ctx.SetBodyStream(strings.NewReader("stale-stream-body"), n) })
+	}
 	switch p.mode {
 	case 0:
 		ep.Probe("mode-none")
@@ -225,7 +241,10 @@ func genProg(tp *core.Tape, idx int, ep *core.Episode, method string) *respProg 
 		p.body = body
 		cut := tp.Choose("cut", size+1)
 		p.ops = append(p.ops, func(ctx *app.RequestContext) {
-			if cut%2 == 1 {
+			if staleStream {
+				// every entry point has to drop the replaced stream by itself
+				ctx.Response.AppendBodyString(string(body[:cut]))
+			} else if cut%2 == 1 {
 				tmp := append([]byte(nil), body[:cut]...)
 				ctx.Response.SetBody(tmp)
 				for i := range tmp {
@@ -242,6 +261,10 @@ func genProg(tp *core.Tape, idx int, ep *core.Episode, method string) *respProg 
 		cut := tp.Choose("cut", size+1)
 		p.ops = append(p.ops, func(ctx *app.RequestContext) {
 			ctx.Write(body[:cut])
+			if staleStream {
+				ctx.Write(body[cut:]) // every entry point has to drop the replaced stream by itself
+				return
+			}
 			ctx.WriteString(string(body[cut:]))
 		})
 	case 4:
